@@ -259,6 +259,8 @@ func (m *BaseUndoLogManager) Undo(ctx context.Context, dbType types.DBType, xid 
 	if err != nil {
 		return err
 	}
+	// hand the connection back to the pool when the undo is over (runs after the deferred rollback below)
+	defer conn.Close()
 
 	tx, err := conn.BeginTx(ctx, &sql.TxOptions{})
 	if err != nil {
